@@ -246,6 +246,19 @@ theorem C05_immediate (n b : Nat) (rest : List Token) (h : parseI rest = none) :
   · simp [parseImmediateValue, parseI]
 
 
+/-- **C05 (CALL immediates, since /repo commit 9ad4430)**: a lone numeric token, optionally preceded by a
+minus sign, is read as the real (or, with the `i` suffix, imaginary) number of exactly the token's value,
+negated by `0 - x` under the sign (so the zero part stays `+0.0`); integers go through `u64 as f64`. -/
+theorem C05_call_immediate (n b : Nat) :
+    parseCallImmediate [.integer n] = .ok ⟨QV.DecF64.ofNat n, 0⟩ [] ∧
+    parseCallImmediate [.operator .minus, .integer n] = .ok ⟨zeroMinus (QV.DecF64.ofNat n), 0⟩ [] ∧
+    parseCallImmediate [.float b] = .ok ⟨b, 0⟩ [] ∧
+    parseCallImmediate [.operator .minus, .float b] = .ok ⟨zeroMinus b, 0⟩ [] ∧
+    parseCallImmediate [.operator .minus, .float b, .identifier ['i']] = .ok ⟨0, zeroMinus b⟩ [] ∧
+    parseCallImmediate [.operator .plus, .integer n] = .err := by
+  refine ⟨?_, ?_, ?_, ?_, ?_, ?_⟩ <;>
+    simp [parseCallImmediate, parseImmediateValue, parseI, negateC, zeroMinus, isZeroBits]
+
 /-! ### from the specification's grammar to tokens to operands -/
 
 /-- **C05 (every integer literal of the specification's grammar)**: whatever spelling the independent
